@@ -13,9 +13,11 @@ From Coq Require Import List NArith Bool.
 Import ListNotations.
 Open Scope N_scope.
 
-(* false: /repo as it is (active map keyed by valid_from alone; revoke removes the slot).
-   true : tree with fixes/C34.patch (active keyed by (valid_from, kid)). *)
-Definition tree_fixed : bool := false.
+(* true : /repo as it is now, i.e. with commit 2dbb6f7 "fix: revoking a key must not drop a sibling
+          key created in the same second" (= fixes/C34.patch): active keyed by (valid_from, kid).
+   false: the tree before that commit (active keyed by valid_from alone; revoke removed the whole
+          slot). Kept as the `fx = false` variant of every definition for the record. *)
+Definition tree_fixed : bool := true.
 
 Definition cid := (N * N)%type.                       (* (ts, server) ; derive(Ord) = lexicographic *)
 Definition cid_ltb (a b : cid) : bool :=
@@ -35,15 +37,15 @@ Fixpoint find {A} (k : N) (l : list (N * A)) : option A :=
   | (k', v) :: t => if k =? k' then Some v else find k t
   end.
 
-(* BTreeMap::insert on an ascending association list *)
-Fixpoint ins {A} (k : N) (v : A) (l : list (N * A)) : list (N * A) :=
+(* BTreeMap::insert on an ascending association list: the binding of k (if any) is dropped
+   and (k, v) is placed before the first greater key *)
+Fixpoint place {A} (k : N) (v : A) (l : list (N * A)) : list (N * A) :=
   match l with
   | [] => [(k, v)]
-  | (k', v') :: t =>
-      if k <? k' then (k, v) :: l
-      else if k =? k' then (k, v) :: t
-      else (k', v') :: ins k v t
+  | (k', v') :: t => if k <? k' then (k, v) :: l else (k', v') :: place k v t
   end.
+Definition ins {A} (k : N) (v : A) (l : list (N * A)) : list (N * A) :=
+  place k v (filter (fun p => negb (fst p =? k)) l).
 
 Fixpoint mem (x : N) (l : list N) : bool :=
   match l with [] => false | y :: t => (x =? y) || mem x t end.
@@ -376,17 +378,26 @@ Definition prun (n : N) (steps : list obs) : pacc :=
 Definition pcheck (c : case) : bool :=
   match c with CHist n steps => let a := prun n steps in p1 a && p2 a && p3 a end.
 
-(* Known-finding class (unfixed tree only): a revoke that hits a key while ANOTHER valid key of
-   the same usage shares its valid_from second. The slot of the active map is removed, the
-   sibling stays valid but unused until the next reload. Only the "newest key signs" part (p2)
-   may fail in this class. *)
-Definition sibling_event (d : stored) (kids : list N) : bool :=
-  existsb (fun k =>
-    match find k d with
-    | Some kk => existsb (fun p => negb (mem (fst p) kids) && (k_us (snd p) =? k_us kk)
-                                   && (k_vf (snd p) =? k_vf kk) && is_valid (k_st (snd p))) d
-    | None => false
-    end) kids.
+(* Pre-fix finding class (tree before 2dbb6f7), kept for the record: a revoke that hits a key while
+   ANOTHER valid key of the same usage shares its valid_from second. The slot of the active map was
+   removed, the sibling stayed valid but unused until the next reload. Only the "newest key
+   signs" part (p2) failed in this class. *)
+Definition has_sibling (d : stored) (k : N) : bool :=
+  match find k d with
+  | Some kk => existsb (fun p => negb (fst p =? k) && (k_us (snd p) =? k_us kk)
+                                 && (k_vf (snd p) =? k_vf kk) && is_valid (k_st (snd p))) d
+  | None => false
+  end.
+(* the kids are revoked one after the other *)
+Fixpoint sibling_event (d : stored) (kids : list N) (c : cid) : bool :=
+  match kids with
+  | [] => false
+  | k :: t =>
+      has_sibling d k
+      || sibling_event (match find k d with
+                        | Some kk => ins k (mkkey (k_us kk) (k_vf kk) Revoked c) d
+                        | None => d end) t c
+  end.
 Fixpoint has_sibling_event (gs : list (N * stored)) (l : list obs) : bool :=
   match l with
   | [] => false
@@ -394,13 +405,14 @@ Fixpoint has_sibling_event (gs : list (N * stored)) (l : list obs) : bool :=
       let r := op_rep (b_op b) in
       let d := match find r gs with Some d => d | None => [] end in
       (match b_op b, b_out b with
-       | ORevoke _ kids _, OutRev true => sibling_event d kids
+       | ORevoke _ kids c, OutRev true => sibling_event d kids c
        | _, _ => false end)
       || has_sibling_event
            (if is_query (b_op b) then gs else ins r (b_all b) gs) t
   end.
-Definition known (c : case) : bool :=
+Definition known_prefix (c : case) : bool :=
   match c with
-  | CHist n steps =>
-      negb tree_fixed && (let a := prun n steps in p1 a && p3 a) && has_sibling_event [] steps
+  | CHist n steps => (let a := prun n steps in p1 a && p3 a) && has_sibling_event [] steps
   end.
+(* no recorded finding class on the current tree *)
+Definition known (_ : case) : bool := false.
